@@ -18,7 +18,25 @@ theorem shard_partial_from_absent (c : Cfg) (updates : List (Nat × Option Bytes
     | some none => ∀ u ∈ updates, u.2 = none
     | some (some v') => decode c true v' = .ok (applyUpdates (List.replicate c.nChunks none) updates) ∧ wellFormed c v' = true
     | none => False := by
-  sorry
+  have h := partialEncode_absent c updates hu hsmall
+  revert h
+  cases partialEncode c none updates with
+  | none => exact id
+  | some r =>
+    cases r with
+    | none => exact fun h => h.1
+    | some v' => exact fun h => ⟨h.1, h.2.1⟩
+
+/-- the hypotheses are satisfiable (index at the end / at the start; the second list drops a chunk and stores an
+empty encoding) -/
+example : let c : Cfg := ⟨2, true, false, true⟩
+    let updates : List (Nat × Option Bytes) := [(0, some [1, 2, 3, 4]), (1, some [5, 6, 7, 8, 9, 10])]
+    updatesOk c updates ∧ ((updates.filterMap (·.2)).map List.length).sum + indexSize c < sentinel := by
+  unfold updatesOk; decide
+example : let c : Cfg := ⟨3, false, true, false⟩
+    let updates : List (Nat × Option Bytes) := [(2, some [1, 2, 3]), (0, none), (1, some [])]
+    updatesOk c updates ∧ ((updates.filterMap (·.2)).map List.length).sum + indexSize c < sentinel := by
+  unfold updatesOk; decide
 
 /-- **sharding partial encoder, from an existing well-formed tight value** (partial statement: the hypothesis
 `hgrow` excludes exactly the known finding — an index at the end whose rewritten suffix would end before the old
@@ -35,7 +53,80 @@ theorem shard_wellformed_partial (c : Cfg) (v : Bytes) (chunks : List (Option By
     | some none => ∀ ch ∈ applyUpdates chunks updates, ch = none
     | some (some v') => decode c true v' = .ok (applyUpdates chunks updates) ∧ wellFormed c v' = true ∧ tight c v' = true
     | none => False := by
-  sorry
+  have hg : Grow c v updates := fun hc idx hidx => Or.inr (by
+    have := hgrow hc idx hidx
+    rwa [show updates.foldl (fun ix u => setEntry ix u.1 (sentinel, sentinel)) idx = idxDead idx updates from
+      fold_step1 updates idx] at this)
+  have h := partialEncode_wellformed c v chunks hdec hwf ht updates hu hsmall
+  revert h
+  cases partialEncode c (some v) updates with
+  | none => exact id
+  | some r =>
+    cases r with
+    | none => exact fun h => h.2
+    | some v' => exact fun h => ⟨h.1, h.2.1, h.2.2 hg⟩
+
+/-- the value written by `shard_index_end_stale_tail`'s first step (index at the end, two inner chunks) -/
+def exEnd : Bytes :=
+  [1, 2, 3, 4, 5, 6, 7, 8, 9, 10, 0, 0, 0, 0, 0, 0, 0, 0, 4, 0, 0, 0, 0, 0, 0, 0, 4, 0, 0, 0, 0, 0, 0, 0, 6, 0, 0, 0, 0,
+    0, 0, 0, 184, 5, 23, 29]
+/-- the same two inner chunks with a big-endian index at the start (no checksum) -/
+def exStart : Bytes :=
+  [0, 0, 0, 0, 0, 0, 0, 32, 0, 0, 0, 0, 0, 0, 0, 4, 0, 0, 0, 0, 0, 0, 0, 36, 0, 0, 0, 0, 0, 0, 0, 6,
+    1, 2, 3, 4, 5, 6, 7, 8, 9, 10]
+
+/-- the hypotheses are satisfiable: index at the end, rewriting the FIRST inner chunk (the end of the live data does
+not move, so `hgrow` holds) -/
+example : let c : Cfg := ⟨2, true, false, true⟩
+    let updates : List (Nat × Option Bytes) := [(0, some [9, 9])]
+    decode c true exEnd = .ok [some [1, 2, 3, 4], some [5, 6, 7, 8, 9, 10]] ∧ wellFormed c exEnd = true ∧
+    tight c exEnd = true ∧ updatesOk c updates ∧
+    exEnd.length + ((updates.filterMap (·.2)).map List.length).sum + indexSize c < sentinel ∧
+    (c.indexAtEnd = true → ∀ idx, currentIndex c (some exEnd) = some idx →
+      liveEnd (updates.foldl (fun ix u => setEntry ix u.1 (sentinel, sentinel)) idx) = liveEnd idx ∨
+      (updates.foldl (fun ix u => setEntry ix u.1 (sentinel, sentinel)) idx).all (fun e => !isLive e) = true) := by
+  refine ⟨by decide +kernel, by decide +kernel, by decide +kernel, by unfold updatesOk; decide, by decide, ?_⟩
+  intro _ idx hidx
+  have : currentIndex ⟨2, true, false, true⟩ (some exEnd) = some [(0, 4), (4, 6)] := by decide +kernel
+  rw [this] at hidx
+  cases hidx
+  decide +kernel
+/-- index at the start: `hgrow` is vacuous; the update drops the last inner chunk and rewrites the first -/
+example : let c : Cfg := ⟨2, false, true, false⟩
+    let updates : List (Nat × Option Bytes) := [(1, none), (0, some [9, 9])]
+    decode c true exStart = .ok [some [1, 2, 3, 4], some [5, 6, 7, 8, 9, 10]] ∧ wellFormed c exStart = true ∧
+    tight c exStart = true ∧ updatesOk c updates ∧
+    exStart.length + ((updates.filterMap (·.2)).map List.length).sum + indexSize c < sentinel ∧
+    (c.indexAtEnd = true → ∀ idx, currentIndex c (some exStart) = some idx →
+      liveEnd (updates.foldl (fun ix u => setEntry ix u.1 (sentinel, sentinel)) idx) = liveEnd idx ∨
+      (updates.foldl (fun ix u => setEntry ix u.1 (sentinel, sentinel)) idx).all (fun e => !isLive e) = true) := by
+  refine ⟨by decide +kernel, by decide +kernel, by decide +kernel, by unfold updatesOk; decide, by decide, ?_⟩
+  intro h; cases h
+
+/-- **the same, with the exact condition for tightness** (`Grow`: some update stores data, or dropping the touched
+inner chunks does not lower the end of the live data, or nothing survives), and the part that needs no such
+condition at all: from a well-formed tight value the new value ALWAYS decodes to the updated inner chunks and is well
+formed; only its tightness can be lost — and a value that is not tight is what the next partial write corrupts
+(`shard_index_end_stale_tail`) -/
+theorem shard_wellformed_partial_sharp (c : Cfg) (v : Bytes) (chunks : List (Option Bytes))
+    (hdec : decode c true v = .ok chunks) (hwf : wellFormed c v = true) (ht : tight c v = true)
+    (updates : List (Nat × Option Bytes)) (hu : updatesOk c updates)
+    (hsmall : v.length + ((updates.filterMap (·.2)).map List.length).sum + indexSize c < sentinel) :
+    match partialEncode c (some v) updates with
+    | some none => ∀ ch ∈ applyUpdates chunks updates, ch = none
+    | some (some v') => decode c true v' = .ok (applyUpdates chunks updates) ∧ wellFormed c v' = true ∧
+        (Grow c v updates → tight c v' = true)
+    | none => False := by
+  have h := partialEncode_wellformed c v chunks hdec hwf ht updates hu hsmall
+  revert h
+  cases partialEncode c (some v) updates with
+  | none => exact id
+  | some r =>
+    cases r with
+    | none => exact fun h => h.2
+    | some v' => exact id
+/-- `Grow` holds where `hgrow` does not: rewriting the LAST inner chunk of `exEnd` -/
+example : Grow ⟨2, true, false, true⟩ exEnd [(1, some [7])] := fun _ _ _ => Or.inl (by decide)
 
 /-- **the full statement is false for the code as it is** (known finding F-C05-K1): index at the end, write two
 inner chunks, set the second to fill, write it again smaller — the stored value keeps its old length and its last
@@ -49,7 +140,12 @@ theorem shard_index_end_stale_tail :
       decode c true v1 = .ok [some [1, 2, 3, 4], some [5, 6, 7, 8, 9, 10]] ∧
       decode c true v2 = .ok [some [1, 2, 3, 4], none] ∧
       decode c true v3 ≠ .ok [some [1, 2, 3, 4], some [7]] := by
-  sorry
+  refine ⟨⟨2, true, false, true⟩, exEnd,
+    [1, 2, 3, 4, 5, 6, 7, 8, 9, 10, 0, 0, 0, 0, 0, 0, 0, 0, 4, 0, 0, 0, 0, 0, 0, 0, 255, 255, 255, 255, 255, 255, 255, 255,
+      255, 255, 255, 255, 255, 255, 255, 255, 138, 7, 41, 197],
+    [1, 2, 3, 4, 7, 0, 0, 0, 0, 0, 0, 0, 0, 4, 0, 0, 0, 0, 0, 0, 0, 4, 0, 0, 0, 0, 0, 0, 0, 1, 0, 0, 0, 0, 0, 0, 0, 188, 0,
+      78, 231, 255, 138, 7, 41, 197], ?_⟩
+  decide +kernel
 
 /-- **non-sharded values**: after the (repaired) default partial encoder the stored value is exactly the encoding
 of the updated chunk, hence decodes to it -/
@@ -57,18 +153,24 @@ theorem unsharded_exact (enc : Bytes → Bytes) (dec : Bytes → Option Bytes) (
     (old : Bytes) (update : Bytes → Bytes) (empty : Bytes) :
     defaultPartialEncode enc dec (some (enc old)) update empty = some (some (enc (update old))) ∧
     defaultPartialEncode enc dec none update empty = some (some (enc (update empty))) := by
-  sorry
+  simp [defaultPartialEncode, hinv, writeAt, specSetPartial_nil]
+
+/-- the hypothesis is satisfiable: a length-prefix encoding -/
+example : ∀ b : Bytes, (fun e : Bytes => some (e.tail.take (e.headD 0))) ((fun b : Bytes => b.length :: b) b) = some b := by
+  intro b; simp
 
 /-- the code as found kept the tail of a longer previous encoding -/
 theorem unsharded_pinned_stale_tail :
     ∃ (enc : Bytes → Bytes) (dec : Bytes → Option Bytes) (old : Bytes) (update : Bytes → Bytes),
       (∀ b, dec (enc b) = some b) ∧
       defaultPartialEncodePinned enc dec (some (enc old)) update [] ≠ some (some (enc (update old))) := by
-  sorry
+  refine ⟨fun b => b.length :: b, fun e => some (e.tail.take (e.headD 0)), [1, 2, 3], fun _ => [9], ?_, ?_⟩
+  · intro b; simp
+  · decide +kernel
 
 /-- partial writes zero-extend and never truncate (the root cause of both findings) -/
 theorem writeAt_never_truncates (v : Bytes) (off : Nat) (b : Bytes) :
-    ∃ v', writeAt (some v) off b = some v' ∧ v'.length = max v.length (off + b.length) := by
-  sorry
+    ∃ v', writeAt (some v) off b = some v' ∧ v'.length = max v.length (off + b.length) :=
+  ⟨_, rfl, (C08.setPartial_zero_extends v b off).1⟩
 
 end Zarrs.C05
